@@ -571,7 +571,10 @@ func runC03(c *Ctx) {
 
 	// ---- R4 ----
 	c03StateTables(c, "C03-R4")
+	c03EveryCheckRunsForMovedRules(c, "C03-R4")
 	c09StateDefault(c, "C03-R4")
+	c03BaseBranchTest(c, "C03-R5")
+	c20DispatchR(c, "C03-R5")
 	c03PathFilter(c, "C03-R5")
 
 	// ---- R5 ----
@@ -1546,4 +1549,102 @@ func c03SymlinkWalk(c *Ctx, rule string) {
 		return true
 	})
 	c.Check(bad == "", rule, "findSymlinks:the walk prunes nothing", fi.Decl.Pos(), "no SkipDir / SkipAll", "the symlink walk skips a directory at "+bad+": symlinks below it are never followed, so the rules they lead to are not re-classified when their target file changes")
+}
+
+// c03EveryCheckRunsForMovedRules: a rule of a renamed file is classified Moved
+// even when its content changed in the same branch, so every check that looks
+// at rules as they are (every check but rule/dependency, which looks at
+// removed ones) lists all four non-removed states: Noop, Added, Modified,
+// Moved. A check that drops one silently skips correctly classified rules.
+func c03EveryCheckRunsForMovedRules(c *Ctx, R string) {
+	p := c.P
+	n := 0
+	for _, tn := range checkerTypes(c, R) {
+		tq := typeQName(tn.Type())
+		if tq == "internal/checks.RuleDependencyCheck" {
+			continue
+		}
+		meta := p.methodOn(tq, "Meta")
+		if meta == nil {
+			continue
+		}
+		states, ok := metaStates(meta)
+		if !ok {
+			c.Undecided(R, "meta:"+tq, meta.Decl.Pos(), "Meta() is not a single literal with a constant States list")
+			continue
+		}
+		n++
+		have := map[string]bool{}
+		for _, s := range states {
+			have[s] = true
+		}
+		missing := ""
+		for _, s := range []string{"Noop", "Added", "Modified", "Moved"} {
+			if !have[s] {
+				missing += " " + s
+			}
+		}
+		c.Check(missing == "", R, "states:"+tq+" runs for every non-removed state", meta.Decl.Pos(), strings.Join(states, ","),
+			tq+" does not run for rules in state"+missing+": `pint ci` classifies the rule correctly and then skips this check for it (a rule edited in a renamed file is Moved)")
+	}
+	c.Check(n >= 25, R, "check types with a state list enumerated", token.NoPos, itoa(n), "fewer check types than confirmed")
+}
+
+// c03BaseBranchTest: `pint ci` does nothing when it is run on the base branch
+// itself. That test compares the name of the current branch as git reports it
+// with (the last path element of) the configured base branch; the current
+// branch is not shortened, trimmed or otherwise rewritten first, or a feature
+// branch such as `jsmith/main` is taken for `main` and every change on it is
+// skipped.
+func c03BaseBranchTest(c *Ctx, R string) {
+	fi := c.MustFunc(R, "cmd/pint.actionCI")
+	if fi == nil {
+		return
+	}
+	info := fi.Pkg.TypesInfo
+	var cur types.Object
+	ast.Inspect(fi.Decl.Body, func(n ast.Node) bool {
+		if as, ok := n.(*ast.AssignStmt); ok && len(as.Rhs) == 1 {
+			if call, isCall := as.Rhs[0].(*ast.CallExpr); isCall && isCallTo(info, call, "internal/git.CurrentBranch") && len(as.Lhs) >= 1 {
+				cur = objOf(info, as.Lhs[0])
+			}
+		}
+		return true
+	})
+	if cur == nil {
+		c.Undecided(R, "actionCI:current branch", fi.Decl.Pos(), "no `x, err := git.CurrentBranch(…)`")
+		return
+	}
+	// comparisons that mention the current branch and guard an early `return nil`
+	n, bad := 0, ""
+	ast.Inspect(fi.Decl.Body, func(nd ast.Node) bool {
+		ifs, ok := nd.(*ast.IfStmt)
+		if !ok {
+			return true
+		}
+		mentions := false
+		ast.Inspect(ifs.Cond, func(m ast.Node) bool {
+			if id, isID := m.(*ast.Ident); isID && info.Uses[id] == cur {
+				mentions = true
+			}
+			return true
+		})
+		rets := returnsIn(ifs.Body.List)
+		if !mentions || len(rets) == 0 || len(rets[len(rets)-1].Results) != 1 || !isNilIdent(info, rets[len(rets)-1].Results[0]) {
+			return true
+		}
+		be, isBin := ast.Unparen(ifs.Cond).(*ast.BinaryExpr)
+		if !isBin || be.Op != token.EQL {
+			bad = "the test is `" + exprStr(ifs.Cond) + "`"
+			n++
+			return true
+		}
+		n++
+		if objOf(info, be.X) != cur && objOf(info, be.Y) != cur {
+			bad = "the current branch enters the comparison as `" + exprStr(be.X) + "` / `" + exprStr(be.Y) + "`, not as reported by git"
+		}
+		return true
+	})
+	c.Check(n == 1 && bad == "", R, "actionCI:base-branch shortcut compares the current branch name itself", fi.Decl.Pos(), "currentBranch == <base name>",
+		bad+" ("+itoa(n)+" shortcut tests): a feature branch whose rewritten name equals the base branch name is treated as the base branch — `pint ci` exits 0 without classifying a single changed rule")
 }
